@@ -12,6 +12,6 @@ open(p,'w').write(s.replace(old,new,1))
 PY
 trap 'git -C /repo checkout -- .' EXIT
 for id in "$@"; do
-  VERIF_NO_EVIDENCE=1 ./run.sh $id quick > work/mut-$id.out 2>&1; rc=$?
+  VERIF_NO_EVIDENCE=1 ./run.sh $id ${TIER:-quick} > work/mut-$id.out 2>&1; rc=$?
   echo "[$name] $id exit=$rc: $(grep -c '^VIOLATION' work/mut-$id.out) VIOLATION lines; kinds: $(grep -o 'kind=[a-z0-9-]*' work/mut-$id.out | sort | uniq -c | sort -rn | head -4 | tr '\n' ' ')"
 done
